@@ -27,6 +27,11 @@ pub enum Scope {
     Reporting,  // C03
 }
 
+/// One unit of tolerance where a profile scale makes travel times fractional (the output format rounds them).
+pub fn tolerance(family: &str, problem: &PProblem) -> f64 {
+    if family == "scale" || problem.vehicles.iter().any(|v| v.scale.is_some()) { 1. } else { 0. }
+}
+
 pub struct OracleOptions {
     /// tolerance for times/distances per leg (0 for integer families, 1 for scaled profiles)
     pub tol: f64,
